@@ -621,17 +621,24 @@ def evaluate(ctx, binpath, cases, stream, nbudget=16, all_n=False):
         e4 = "[" + "; ".join(ivs) + "]"
         plan.append((len(exprs), where))
         exprs.append("(%s, %s, %s, %s)" % (e1, e2, e3, e4))
-    model = ctx.run_model("Hybrid", REQ, exprs, preamble=PRE, timeout=1500)
-    # a shard killed by the OS (out of memory / overloaded machine) is an infrastructure failure: re-run its cases
-    for attempt in range(2):
+    # shards of bounded work (a case with every expiry point is ~10^3 model runs); 16 of them run at a time
+    chunk = max(1, min(24 if all_n else 60, (len(exprs) + vf.NPROC - 1) // vf.NPROC))
+    model = ctx.run_model("Hybrid", REQ, exprs, preamble=PRE, timeout=3000, chunk=chunk)
+    # a shard killed by the OS or timing out on an overloaded machine is an infrastructure failure: re-run its cases
+    for attempt in range(3):
         failed = [i for i, m in enumerate(model) if isinstance(m, tuple) and m and m[0] == "ERROR"]
         if not failed:
             break
         ctx.log("%s: re-running %d model evaluations whose coqc shard failed (%s)" % (stream, len(failed), str(model[failed[0]][1])[:60]))
-        again = ctx.run_model("Hybrid", REQ, [exprs[i] for i in failed], preamble=PRE, timeout=1500,
-                              chunk=max(1, (len(failed) + 7) // 8))
+        again = ctx.run_model("Hybrid", REQ, [exprs[i] for i in failed], preamble=PRE, timeout=3000,
+                              chunk=max(1, min(8, (len(failed) + 7) // 8)))
         for i, m in zip(failed, again):
             model[i] = m
+    failed = [m for m in model if isinstance(m, tuple) and m and m[0] == "ERROR"]
+    if failed and all(("rc=-9" in str(m[1]) or "rc=124" in str(m[1]) or "timeout" in str(m[1])) for m in failed):
+        print("[C08] %d model evaluations were killed / timed out four times (machine overloaded?): infrastructure error, not a verdict" % len(failed))
+        import sys
+        sys.exit(2)
     for ci, (c, im) in enumerate(zip(cases, impl)):
         if plan[ci] is None:
             continue
